@@ -161,13 +161,20 @@ impl Gen<'_> {
     }
 
     fn var_name(&mut self, ty: &Ty) -> String {
-        if self.profile == Profile::Scope && self.rng.chance(3, 4) {
-            // few names, reused everywhere; one name always has one type so that the
-            // static checker's name-based guesses stay right
-            match ty {
-                Ty::Num => return (*self.rng.pick(&SCOPE_NUM_NAMES)).to_string(),
-                Ty::Str => return (*self.rng.pick(&SCOPE_STR_NAMES)).to_string(),
-                _ => {}
+        if self.profile == Profile::Scope && self.rng.chance(3, 4) && matches!(ty, Ty::Num | Ty::Str) {
+            // few names, reused everywhere and at different types in different scopes; within
+            // one block a name keeps its type (a same-block `make` rebinds the same variable)
+            let cand = if self.rng.chance(2, 3) {
+                match ty {
+                    Ty::Num => *self.rng.pick(&SCOPE_NUM_NAMES),
+                    _ => *self.rng.pick(&SCOPE_STR_NAMES),
+                }
+            } else {
+                *self.rng.pick(&["a", "b", "c", "s", "t"])
+            };
+            let clash = self.scopes.last().unwrap().vars.iter().any(|v| v.name == cand && &v.ty != ty);
+            if !clash {
+                return cand.to_string();
             }
         }
         let prefix = match ty {
